@@ -7,10 +7,10 @@ from vlib.runner import ShardResult, Violation
 
 ID = "C14"
 LEVEL = "exploration"
-RULE = ("cases are (alias, key length in {16,24,32}, key, message, second key, declared lengths, entropy seed); every message "
+RULE = ("cases are (alias, key length in {16,24,32}, key, message, second key, declared lengths (none / message only / cipher only / both), entropy seed); every message "
         "length 0..80 is enumerated for 3 key lengths, Hypothesis adds random lengths up to 5000 and contract breaches (bad "
         "key lengths, declared message/cipher length mismatches, bad constructor arguments). Oracles: round-trip, length law "
-        "16+16*(len//16+1), two encryptions differ (IV and body), wrong key raises or returns != m, an independent "
+        "16+16*(len//16+1), two encryptions differ (IV and body) and up to 1100 encryptions of one (key, message) in one process are pairwise distinct, wrong key raises or returns != m, an independent "
         "AES-CBC/PKCS7 decryption written in the harness agrees, breaches raise ValueError. Non-trivial = message length >= 1 "
         "that is a multiple of 16, or > 16, or a contract-breach case; distinct = distinct case.")
 ASSUMPTIONS = ["the `cryptography` package's AES/CBC/PKCS7 primitives are trusted as the independent reference",
@@ -52,8 +52,12 @@ def run_case(case):
             if kind == "roundtrip":
                 key, m = B(case["key"]), B(case["m"])
                 kw = {"key_length": len(key)}
-                if case.get("declare"):
+                dec = case.get("declare")
+                if dec is True:
+                    dec = "both"
+                if dec in ("both", "message"):
                     kw["message_length"] = len(m)
+                if dec in ("both", "cipher"):
                     kw["cipher_length"] = 16 + 16 * (len(m) // 16 + 1)
                 ske = cls(**kw)
                 c1 = ske.Encrypt(key, m)
@@ -89,6 +93,21 @@ def run_case(case):
                 kg2 = ske.KeyGen()
                 if kg == kg2:
                     raise Violation("KeyGen returned the same key twice", "keygen:fresh")
+            elif kind == "fresh_many":
+                # one (key, message) encrypted many times in one process: all ciphertexts and all IVs pairwise distinct
+                key, m = B(case["key"]), B(case["m"])
+                ske = cls(key_length=len(key))
+                seen_c, seen_iv = set(), set()
+                for i in range(case["count"]):
+                    c = ske.Encrypt(key, m)
+                    if c in seen_c:
+                        raise Violation("encryption #%d of the same (key, message) repeats an earlier ciphertext" % i, "fresh:repeat_after_many")
+                    if c[:16] in seen_iv:
+                        raise Violation("encryption #%d reuses an earlier IV" % i, "fresh:iv_repeat_after_many")
+                    seen_c.add(c)
+                    seen_iv.add(c[:16])
+                if ske.Decrypt(key, c) != m:
+                    raise Violation("Decrypt(Encrypt(m)) != m after many encryptions", "roundtrip")
             elif kind == "bad_ctor_keylen":
                 expect_value_error(lambda: cls(key_length=case["klen"]), "ctor(key_length=%d)" % case["klen"])
             elif kind == "bad_ctor_cipherlen":
@@ -121,7 +140,7 @@ def run_case(case):
 
 @st.composite
 def st_case(draw):
-    kind = draw(st.sampled_from(["roundtrip"] * 6 + ["bad_ctor_keylen", "bad_ctor_cipherlen", "bad_key", "bad_msglen",
+    kind = draw(st.sampled_from(["roundtrip"] * 6 + ["fresh_many", "bad_ctor_keylen", "bad_ctor_cipherlen", "bad_key", "bad_msglen",
                                                     "bad_cipherlen", "bad_alias"]))
     c = {"kind": kind, "alias": draw(st.sampled_from(ALIASES)), "seed": draw(st.integers(0, 2 ** 32))}
     klen = draw(st.sampled_from([16, 24, 32]))
@@ -132,7 +151,10 @@ def st_case(draw):
         key2 = draw(st.one_of(st.binary(min_size=klen, max_size=klen),
                               st.just(bytes([key[0] ^ 1]) + key[1:]), st.just(key[:-1] + bytes([key[-1] ^ 0x80]))))
         c.update(key=key.hex(), key2=key2.hex(), m=draw(st.binary(min_size=mlen, max_size=mlen)).hex(),
-                 declare=draw(st.booleans()))
+                 declare=draw(st.sampled_from([None, "both", "message", "cipher"])))
+    elif kind == "fresh_many":
+        c.update(key=draw(st.binary(min_size=klen, max_size=klen)).hex(), m=draw(st.binary(max_size=40)).hex(),
+                 count=draw(st.sampled_from([300, 520, 1100])))
     elif kind == "bad_ctor_keylen":
         c["klen"] = draw(st.sampled_from([0, 1, 8, 15, 17, 20, 23, 25, 31, 33, 48, 64, -16]))
     elif kind == "bad_ctor_cipherlen":
@@ -188,7 +210,10 @@ def _length_cases(tier, seed):
                 key2 = hashlib.sha256(h).digest()[:klen] if r % 2 else bytes([key[0] ^ 1]) + key[1:]
                 m = (hashlib.sha256(h + b"m").digest() * 3)[:n]
                 yield {"kind": "roundtrip", "alias": ALIASES[(n + r) % len(ALIASES)], "seed": int.from_bytes(h[:4], "big"),
-                       "key": key.hex(), "key2": key2.hex(), "m": m.hex(), "declare": bool(r % 2)}
+                       "key": key.hex(), "key2": key2.hex(), "m": m.hex(), "declare": [None, "both", "message", "cipher"][(n + r) % 4]}
+    for klen in (16, 24, 32):
+        yield {"kind": "fresh_many", "alias": "AES-CBC", "seed": seed + klen, "key": (hashlib.sha256(b"fm%d" % klen).digest() * 2)[:klen].hex(),
+               "m": b"same message".hex(), "count": 1100}
 
 
 def run_shard(spec, seed, tier):
